@@ -4,3 +4,4 @@ import Driver.Proto
 import Driver.Frame
 import Driver.Cmd
 import Driver.Song
+import Driver.Filter
